@@ -295,6 +295,13 @@ func exec(o op, vals []value) (res obsv) {
 			wn = rtSize(value{v.k, corpus.FreshCopy(v.m)})
 		}
 		res.got, res.want = fmt.Sprint(n), fmt.Sprint(wn)
+		// "Size equals the length of the marshaled bytes"
+		var mb []byte
+		var merr error
+		if !own(func() { mb, merr = csproto.Marshal(corpus.FreshCopy(v.m)) }) && merr == nil {
+			res.got += fmt.Sprintf(" (Marshal gives %d bytes)", len(mb))
+			res.want += fmt.Sprintf(" (Marshal gives %d bytes)", n)
+		}
 	case oUnmarshal, oCodec:
 		b := corpus.Encode(corpus.Wrap(v.m))
 		if o.uns%3 == 0 {
